@@ -148,11 +148,13 @@ class P:
         t = self.peek()
         if t == "char" and self.peek(1) == "*":
             self.i += 2
+            if self.peek() == "const":          # `const char* const p`: the pointer itself is not reassigned
+                self.i += 1
             return "ptr"
-        if t in INT_TYPES and not const:
+        if t in INT_TYPES:
             self.i += 1
             return "usize" if t in ("usize", "uint", "uint64") else "int"
-        if t == "bool" and not const:
+        if t == "bool":
             self.i += 1
             return "bool"
         if t == "String":
@@ -461,7 +463,7 @@ def map_stmts(stmts, f):
 def find_helpers(src):
     """`static [inline] bool name(const char* p) { return <expr>; }` anywhere in the file -> {name: (param, expr)}"""
     hs = {}
-    for m in re.finditer(r"static\s+(?:inline\s+)?bool\s+([A-Za-z_]\w*)\s*\(\s*const\s+char\s*\*\s*([A-Za-z_]\w*)\s*\)\s*\{\s*return\s+([^;{}]*);\s*\}", src):
+    for m in re.finditer(r"(?:static\s+)?(?:inline\s+)?bool\s+([A-Za-z_]\w*)\s*\(\s*(?:const\s+)?char\s*\*?\s*([A-Za-z_]\w*)\s*\)\s*\{\s*return\s+([^;{}]*);\s*\}", src):
         name, par, body = m.group(1), m.group(2), m.group(3)
         try:
             pp = P(tokenize(body, name), name)
@@ -1436,45 +1438,109 @@ def translate_function(src, name, ret_rx, ret, known):
     return out, len(params), f"{name}: {nst} statements, {g.nloop} loops"
 
 
-def generate(repo, out_path=OUT):
-    """writes out_path (only when the content changes); returns a one-line summary; raises Refuse"""
+OUT_CUR = VERIF / "lean" / "Nstd" / "Generated" / "PathScanCur.lean"
+PROVED_DIR = VERIF / "tools" / "gen_path_proved"
+NPAR = {"getDirectoryName": 1, "getBaseName": 2, "getStem": 2, "getExtension": 1, "isAbsolutePath": 1, "simplifyPath": 1}
+LAST_LEVELS = {}
+
+
+def canon_text(lines):
+    """the generated text of one function with its locals renamed by position (renamed locals do not matter)"""
+    text = "\n".join(l.rstrip() for l in lines).strip()
+    names, inside = [], False
+    for l in text.split("\n"):
+        if l.startswith("structure St where"):
+            inside = True
+        elif inside:
+            m = re.match(r"  v_(\w+) : ", l)
+            if m:
+                names.append(m.group(1))
+            elif not l.startswith("  "):
+                break
+    for k, n in sorted(enumerate(names), key=lambda x: -len(x[1])):
+        text = re.sub(r"\bv_" + re.escape(n) + r"\b", f"v#{k}", text)
+    return text
+
+
+def qualify(lines, ns):
+    rx = r"\bmatch (" + "|".join(NPAR) + r") fuel0"
+    return [re.sub(rx, lambda m: f"match Nstd.Generated.{ns}.{m.group(1)} fuel0", l) for l in lines]
+
+
+def stand_in(name, ret, reason):
+    args = " ".join(f"(a{k} : Bytes)" for k in range(NPAR[name]))
+    call = " ".join(f"a{k}" for k in range(NPAR[name]))
+    return [f"/-! ### File::{name}: NOT translated ({reason.replace('-/', '- /')}) - the model function stands in -/",
+            f"def {name} (fuel0 : Nat) {args} : Option {LEAN_TY[ret]} := some (Nstd.Path.{name} {call})", ""]
+
+
+def generate(repo, out_path=OUT, cur_path=None, record=False):
+    """Writes two files (only when the content changes) and returns a one-line summary.
+
+    out_path (Generated/PathScan.lean): per function the translation of the CURRENT body when it is (up to the names of
+        locals) the program text the proofs of Nstd/Path/PropsScan.lean were written for, else that PROVED text
+        (tools/gen_path_proved/<function>.lean.txt) with `<function>_isCurrent := false`;
+    cur_path (Generated/PathScanCur.lean): the translation of the CURRENT body whenever the translator understands it
+        (bounded kernel checks of Nstd/Path/PropsScanCur.lean), else the model function as a stand-in.
+    LAST_LEVELS[function] = how the current text of the function is tied: "proved" | "bounded…" | "run only…".
+    `record=True` stores the current translations as the proved texts (maintenance, after the proofs were adapted)."""
+    if cur_path is None:
+        cur_path = OUT_CUR if Path(out_path) == OUT else Path(str(out_path) + ".cur")
     src = strip_comments((Path(repo) / "src/File.cpp").read_text(errors="replace"))
-    parts = ["/- generated by tools/gen_path.py from src/File.cpp - do not edit -/", "import Nstd.Path.Cxx", "",
-             "set_option linter.unusedVariables false", "", "namespace Nstd.Generated.PathScan", "open Nstd.Path", "open Nstd.Path.Cxx", ""]
-    known, summary = {}, []
+    def head(ns, what):
+        return [f"/- generated by tools/gen_path.py from src/File.cpp - do not edit ({what}) -/", "import Nstd.Path.Cxx", "",
+                "set_option linter.unusedVariables false", "", f"namespace Nstd.Generated.{ns}", "open Nstd.Path", "open Nstd.Path.Cxx", ""]
+    scan = head("PathScan", "per function: the current body when it is the text the proofs are about, else the proved text")
+    cur = head("PathScanCur", "the current bodies as far as the translator understands them")
+    summary = []
+    LAST_LEVELS.clear()
     for name, ret_rx, ret, must in FUNCS:
+        lines, reason = None, ""
         try:
-            lines, npar, s = translate_function(src, name, ret_rx, ret, known)
+            earlier = {n: NPAR[n] for n, *_ in FUNCS[:[f[0] for f in FUNCS].index(name)]}
+            lines, npar, sm = translate_function(src, name, ret_rx, ret, earlier)
         except Refuse as e:
-            if must:
-                raise
-            # no theorem depends on the structure of this body: the model function stands in, the refusal is reported
-            lines = [f"/-! ### File::{name}: NOT translated ({str(e).replace('-/', '- /')}) - the model function stands in -/",
-                     f"def {name} (fuel0 : Nat) (v_path : Bytes) : Option Bytes := some (Nstd.Path.{name} v_path)",
-                     f"def {name}_isTranslated : Bool := false", ""]
-            npar, s = 1, f"{name}: REFUSED ({e})"
+            reason, sm = str(e), f"{name}: REFUSED ({e})"
+        pf = PROVED_DIR / f"{name}.lean.txt"
+        if record and lines is not None:
+            PROVED_DIR.mkdir(parents=True, exist_ok=True)
+            pf.write_text("\n".join(lines))
+        if not pf.exists():
+            raise Refuse(f"{name}: no proved text recorded ({pf})")
+        proved = pf.read_text().split("\n")
+        if lines is not None and canon_text(lines) == canon_text(proved):
+            scan += qualify(lines, "PathScan") + [f"def {name}_isCurrent : Bool := true", ""]
+            cur += qualify(lines, "PathScanCur")
+            LAST_LEVELS[name] = "proved"
         else:
-            if not must:
-                lines += [f"def {name}_isTranslated : Bool := true", ""]
-        # a function calls the translated ones by their generated name
-        parts += [re.sub(r"\bmatch (" + "|".join(known) + r") fuel0", lambda m: f"match Nstd.Generated.PathScan.{m.group(1)} fuel0", l)
-                  if known else l for l in lines]
-        known[name] = npar
-        summary.append(s)
-    parts += ["end Nstd.Generated.PathScan", ""]
-    text = "\n".join(parts)
-    out_path = Path(out_path)
-    out_path.parent.mkdir(parents=True, exist_ok=True)
-    if not out_path.exists() or out_path.read_text() != text:
-        out_path.write_text(text)
+            scan += qualify(proved, "PathScan") + [f"def {name}_isCurrent : Bool := false", ""]
+            if lines is not None:
+                cur += qualify(lines, "PathScanCur")
+                LAST_LEVELS[name] = "bounded kernel check of the current translation + correspondence run (the current text is not the proved one)"
+                sm += " [NOT the proved text]"
+            else:
+                cur += stand_in(name, ret, reason)
+                LAST_LEVELS[name] = f"correspondence run only (translator refuses the current text: {reason})"
+        summary.append(sm)
+    scan += ["end Nstd.Generated.PathScan", ""]
+    cur += ["end Nstd.Generated.PathScanCur", ""]
+    for path_, parts in ((out_path, scan), (cur_path, cur)):
+        text = "\n".join(parts)
+        path_ = Path(path_)
+        path_.parent.mkdir(parents=True, exist_ok=True)
+        if not path_.exists() or path_.read_text() != text:
+            path_.write_text(text)
     return "; ".join(summary)
 
 
 if __name__ == "__main__":
-    repo = sys.argv[1] if len(sys.argv) > 1 else "/repo"
-    out = sys.argv[2] if len(sys.argv) > 2 else str(OUT)
+    args = [a for a in sys.argv[1:] if a != "--record"]
+    repo = args[0] if args else "/repo"
+    out = args[1] if len(args) > 1 else str(OUT)
     try:
-        print(generate(repo, out))
+        print(generate(repo, out, record="--record" in sys.argv))
+        for k, v in LAST_LEVELS.items():
+            print(f"  {k}: {v}")
     except Refuse as e:
         print("REFUSED:", e)
         sys.exit(1)
